@@ -64,6 +64,7 @@ def main():
         sys.exit(0 if ok else 1)
     ctx = Ctx(prop, tier, seed)
     ctx.driver_ok = True
+    ctx.no_build = bool(a.no_build)
     axioms = {}
     try:
         if not a.no_build:
